@@ -148,7 +148,7 @@ average(const Container<LieGroup, Args...>& points,
 
     // This stopping criterion is derived from (b)
     typename LieGroup::Jacobian G = ts.rjac().transpose() * ts.rjac();
-    const Scalar n = ts.coeffs().transpose() * G * ts.coeffs();
+    const Scalar n = ts.coeffs().dot(G * ts.coeffs());
 
     if (n < Constants<Scalar>::eps)
       break;
